@@ -10,5 +10,62 @@ func tmpReplica(w *World, owner *Actor, db dbm.DB, name string) (*Replica, error
 	if err := r.boot(); err != nil {
 		return nil, err
 	}
+	w.scratch = append(w.scratch, r)
 	return r, nil
+}
+
+// Dispose releases what a scratch replica holds. The node's own background goroutines (e.g. the
+// chain's ipfs loader) never end and keep the object graph reachable, so the memory is given back
+// by emptying the replica's database and pool instead. Only for replicas whose database is not
+// shared with a replica that is still in use.
+func (r *Replica) Dispose() {
+	if r == nil {
+		return
+	}
+	r.Alive = false
+	if r.TxPool != nil {
+		for _, tx := range r.TxPool.VerifAll() {
+			r.TxPool.Remove(tx)
+		}
+	}
+	if r.DB == nil || r.disposed {
+		return
+	}
+	r.disposed = true
+	db := r.DB
+	if u, ok := db.(interface{ Inner() dbm.DB }); ok { // crash-injecting wrapper: empty the database underneath
+		db = u.Inner()
+	}
+	it, err := db.Iterator(nil, nil)
+	if err != nil {
+		return
+	}
+	var keys [][]byte
+	for ; it.Valid(); it.Next() {
+		keys = append(keys, append([]byte{}, it.Key()...))
+	}
+	it.Close()
+	for _, k := range keys {
+		db.Delete(k)
+	}
+	if r.Chain != nil {
+		r.Chain.VerifRelease()
+	}
+	if r.TxPool != nil {
+		r.TxPool.VerifRelease()
+	}
+	r.Chain, r.AppState, r.TxPool, r.Offline, r.Upgrader, r.Epoch, r.Bus, r.SecStore = nil, nil, nil, nil, nil, nil, nil, nil
+}
+
+// ScratchMark / DisposeSince: dispose the scratch replicas an inner loop iteration created.
+func (w *World) ScratchMark() int { return len(w.scratch) }
+
+func (w *World) DisposeSince(mark int) {
+	if mark > len(w.scratch) {
+		return
+	}
+	for _, r := range w.scratch[mark:] {
+		r.Dispose()
+	}
+	w.scratch = w.scratch[:mark]
 }
